@@ -331,20 +331,23 @@ Definition agree7 (c : case7) : bool :=
     is the one in the implementation's storage after the set-up) *)
 Definition env7 (c : case7) : list (N * bool) :=
   fold_left (fun env ho => env_after (c7_sp c) (c7_st0 c) (fst ho) env) (c7_setup c) [].
-Definition spec7 (c : case7) : bool :=
-  let o2 := c7_obs2 c in
+(** the recovery clause as a function of what was observed of the recovery: result, cached
+    certificate, storage, handshake twin *)
+Definition spec7_core (cfg : config) (sp : subject) (o2 : obs) (twin : bool) : bool :=
   (ob_res o2 =? 0) &&
   match ob_cached o2 with
   | Some (ser, k, names) =>
-      nlist_eqb names [s_id (c7_sp c)] &&
-      existsb (fun i => match bundle_at (ob_st o2) i (s_save (c7_sp c)) with
-                        | Some ((_, k', c', _) as b) => N.eqb (c_ser c') ser && N.eqb k' k && good_bundle (c7_sp c) b && negb (is_due c')
-                        | None => false end) (issuers (c7_cfg c))
+      nlist_eqb names [s_id sp] &&
+      existsb (fun i => match bundle_at (ob_st o2) i (s_save sp) with
+                        | Some ((_, k', c', _) as b) => N.eqb (c_ser c') ser && N.eqb k' k && good_bundle sp b && negb (is_due c')
+                        | None => false end) (issuers cfg)
   | None => false
-  end && c7_twin c
+  end && twin.
+Definition spec7 (c : case7) : bool :=
+  spec7_core (c7_cfg c) (c7_sp c) (c7_obs2 c) (c7_twin c)
   (* ... and the recovery itself obeys the clauses of C06 (complete matching bundle under the
      documented keys, reload, key reuse / freshness), judged from the storage the fault left behind *)
-  && spec_step (c7_cfg c) (c7_sp c) (env7 c) (ob_st (c7_obs1 c)) HManage o2.
+  && spec_step (c7_cfg c) (c7_sp c) (env7 c) (ob_st (c7_obs1 c)) HManage (c7_obs2 c).
 
 Definition check_line7 (l : list Z) : Z :=
   match decode get_case7 l with
